@@ -226,3 +226,289 @@ def impl_sequence(case):
     step("a0.match.new", lambda: a0.match(p_new), "match")
     step("b.sub.a0", lambda: b.sub(a0, pb), "text")
     return {"res": res, "canon": canon}
+
+
+# ------------------------------------------------------------------ round 4: mozpath helpers, ==, concat, expand, encoding
+import os as _os
+
+
+def _at(cwd, f):
+    """run f with the given current directory (relative roots / relpath look at os.getcwd())"""
+    if cwd is None:
+        return f()
+    old = _os.getcwd()
+    _os.chdir(cwd)
+    try:
+        return f()
+    finally:
+        _os.chdir(old)
+
+
+def _texts(l):
+    return "[" + " ".join(enc(x) for x in l) + "]"
+
+
+def impl_mozpath(fn, args, cwd=None):
+    """one pure helper of compare_locales.mozpath -> {"canon": canonical string, "raw": value | {'exc':..}}"""
+    from compare_locales import mozpath
+
+    def call():
+        if fn == "join":
+            return mozpath.join(*args)
+        if fn == "commonprefix":
+            return mozpath.commonprefix(list(args))
+        if fn == "basedir":
+            return mozpath.basedir(args[0], list(args[1:]))
+        return getattr(mozpath, fn)(*args)
+    c, v = guarded(lambda: _at(cwd, call))
+    if c is not None:
+        return {"canon": c, "raw": {"exc": v["exc"]}}
+    if fn == "splitext":
+        return {"canon": enc(v[0]) + " " + enc(v[1]), "raw": list(v)}
+    if fn == "split":
+        return {"canon": _texts(v), "raw": list(v)}
+    if v is None:
+        return {"canon": "None", "raw": None}
+    return {"canon": enc(v), "raw": v}
+
+
+def build_raw(spec):
+    """Matcher(pattern, env, root) with the root exactly as given (may be relative)"""
+    from compare_locales.paths.matcher import Matcher
+    return Matcher(spec["pat"], dict(spec.get("env") or []), root=spec.get("root"))
+
+
+def _info(m):
+    def rx():
+        m._cached_re = None
+        m._cache_regex()
+        return regex_canon(m._cached_re.pattern)
+    c, v = guarded(rx)
+    rxc = c if c is not None else v
+    c, v = guarded(lambda: m.prefix)
+    pc = c if c is not None else enc(v)
+    prefix = v
+    c, v = guarded(lambda: str(m))
+    sc = c if c is not None else enc(v)
+    return rxc + " | " + pc + " | " + sc, prefix, v
+
+
+def _matches(m, paths):
+    ms, raws = [], []
+    for p in paths:
+        m._cached_re = None
+        c, v = guarded(lambda: m.match(p))
+        ms.append(c if c is not None else ("None" if v is None else dict_canon(v)))
+        raws.append(v)
+    return " | ".join(ms), raws
+
+
+def impl_expand(case):
+    """the module function expand(root, path, env)"""
+    from compare_locales.paths import matcher as M
+    c, v = guarded(lambda: _at(case.get("cwd"), lambda: M.expand(case["root"], case["pat"], dict(case["env"]))))
+    return {"canon": c if c is not None else enc(v), "raw": v}
+
+
+def impl_eq(case):
+    def go():
+        a, b = build_raw(case["a"]), build_raw(case["b"])
+        from compare_locales.paths import matcher as M
+        vals = [a == b, a != b, b == a, a.pattern == b.pattern, a.pattern != b.pattern]
+        nodes = [x != y for x, y in zip(a.pattern, b.pattern)]
+        # reflexivity, the NotImplemented branch, a plain list, a different encoding, the abstract base class, repr
+        a_enc = M.Matcher(case["a"]["pat"], dict(case["a"].get("env") or []), root=case["a"].get("root"), encoding="utf-8")
+        abstract = []
+        for f in (lambda: M.Node().regex_pattern({}), lambda: M.Node().expand({})):
+            try:
+                f()
+                abstract.append("returned")
+            except NotImplementedError:
+                abstract.append("NotImplementedError")
+        vals2 = [a == a, b == b, a == case["a"]["pat"], a != case["a"]["pat"], a.pattern == list(a.pattern), a == a_enc,
+                 abstract, isinstance(repr(a), str) and isinstance(repr(b), str)]
+        return vals, vals2, nodes
+    c, v = guarded(lambda: _at(case.get("cwd"), go))
+    if c is not None:
+        return {"canon": c, "raw": v}
+
+    def behave(spec):
+        m = build_raw(spec)
+        info, prefix, s = _info(m)
+        return [info, _matches(m, case.get("paths", []))[0]]
+    beh = _at(case.get("cwd"), lambda: [behave(case["a"]), behave(case["b"])])
+    return {"canon": " ".join("1" if x else "0" for x in v[0]) + " n" + "".join("1" if x else "0" for x in v[2]),
+            "raw": v[0], "extra": v[1], "behave": beh, "nodes": v[2]}
+
+
+def impl_concat(case):
+    def go():
+        a = build_raw(case["a"])
+        o = case["other"]
+        other = build_raw(o["spec"]) if o["kind"] == "M" else o["text"]
+        return a, a.concat(other)
+    c, v = guarded(lambda: _at(case.get("cwd"), go))
+    if c is not None:
+        return {"canon": c, "raw": v}
+    a, m = v
+    before = pattern_canon(build_raw(case["a"]).pattern)
+    info, prefix, s = _info(m)
+    ms, raws = _matches(m, case.get("paths", []))
+    root = "None" if m.pattern.root is None else enc(m.pattern.root)
+    return {"canon": pattern_canon(m.pattern) + " ; " + root + " ; " + info + " ; " + ms, "prefix": prefix, "str": s,
+            "match_raw": raws, "a_unchanged": before == pattern_canon(a.pattern)}
+
+
+def impl_rebuild(case):
+    """Matcher(other_matcher, env, root)"""
+    from compare_locales.paths.matcher import Matcher
+
+    def go():
+        a = build_raw(case["a"])
+        return Matcher(a, dict(case["env"]), root=case["root"])
+    c, m = guarded(lambda: _at(case.get("cwd"), go))
+    if c is not None:
+        return {"canon": c, "raw": m}
+    info, prefix, s = _info(m)
+    ms, raws = _matches(m, case.get("paths", []))
+    root = "None" if m.pattern.root is None else enc(m.pattern.root)
+    return {"canon": root + " ; " + info + " ; " + ms, "prefix": prefix, "str": s, "match_raw": raws, "root": m.pattern.root}
+
+
+def impl_enc(case):
+    """matchers built with encoding='utf-8': bytes in, bytes out (decoded here for the comparison)"""
+    from compare_locales.paths.matcher import Matcher
+
+    def mk(spec):
+        return Matcher(spec["pat"], dict(spec.get("env") or []), root=spec.get("root"), encoding="utf-8")
+
+    def go():
+        a, b = mk(case["a"]), mk(case["b"])
+        c, v = guarded(lambda: a.prefix)
+        pc = c if c is not None else enc(v.decode("utf-8"))
+        praw = v.decode("utf-8") if c is None else v
+        out, raws = [], []
+        for p in case["paths"]:
+            a._cached_re = None
+            c1, v1 = guarded(lambda: a.match(p.encode("utf-8")))
+            a._cached_re = None
+            c2, v2 = guarded(lambda: a.sub(b, p.encode("utf-8")))
+            m1 = c1 if c1 is not None else ("None" if v1 is None else dict_canon(v1))
+            m2 = c2 if c2 is not None else ("None" if v2 is None else enc(v2.decode("utf-8")))
+            out.append(m1 + " " + m2)
+            raws.append([v1, v2.decode("utf-8") if isinstance(v2, bytes) else v2])
+        return pc + " ; " + " | ".join(out), praw, raws
+    c, v = guarded(lambda: _at(case.get("cwd"), go))
+    if c is not None:
+        return {"canon": c, "raw": v}
+    return {"canon": v[0], "prefix": v[1], "raw": v[2]}
+
+
+def impl_objargs(case):
+    """Matcher(pattern OBJECT, env of Pattern / Matcher objects): PatternParser.parse on non-strings"""
+    from compare_locales.paths.matcher import Matcher, PatternParser
+    env = {}
+    for i, (k, v) in enumerate(case.get("env") or []):
+        env[k] = PatternParser().parse(v) if i % 2 == 0 else Matcher(v, {"unused": "x"})
+    pat = PatternParser().parse(case["pat"]) if case.get("patobj") == "P" else Matcher(case["pat"])
+    m = Matcher(pat, env, root=case.get("root"))
+    info, prefix, s = _info(m)
+    ms, raws = _matches(m, case.get("paths", []))
+    return {"info": info, "matches": ms, "match_raw": raws, "prefix": prefix, "str": s}
+
+
+def impl_derive(case):
+    """operations on matcher OBJECTS in sequence, caches never reset: the source is used (match, sub: its regex is cached),
+    then a matcher is derived from it step by step (Matcher(m, env, root) = with_env / re-rooted copy, concat), every
+    intermediate object is used once, and the last one is compared with a matcher built FRESH from the same pattern text,
+    environment and root"""
+    from compare_locales.paths.matcher import Matcher
+
+    def can_match(v_c):
+        c, v = v_c
+        return c if c is not None else ("None" if v is None else dict_canon(v))
+
+    def can_text(v_c):
+        c, v = v_c
+        return c if c is not None else ("None" if v is None else enc(v))
+
+    def go():
+        a, b = build_raw(case["a"]), build_raw(case["b"])
+        warm = case["warm"]
+        r0 = guarded(lambda: a.match(warm))
+        r1 = guarded(lambda: a.sub(b, warm))
+        head = can_match(r0) + " ; " + can_text(r1)
+        out = {"a.match.warm": r0[1], "a.sub.warm": r1[1], "steps": []}
+        d = a
+        acc = []
+        for st in case["steps"]:
+            prev = d
+            if st["op"] == "E":
+                c, d = guarded(lambda: Matcher(prev, dict(st["env"]), root=st["root"]))
+            elif st["op"] == "CT":
+                c, d = guarded(lambda: prev.concat(st["text"]))
+            else:
+                o = build_raw(st["spec"])
+                c, d = guarded(lambda: prev.concat(o))
+            if c is not None:
+                out["derive_exc"] = d
+                return head + " ; " + c, out
+            empty = d._cached_re is None
+            r = guarded(lambda: d.match(warm))
+            acc.append(("1" if empty else "0") + " " + can_match(r))
+            out["steps"].append({"cache_empty": empty, "match.warm": r[1]})
+        paths = case["paths"]
+        pr = guarded(lambda: d.prefix)
+        ms = [guarded(lambda p=p: d.match(p)) for p in paths]
+        sb = guarded(lambda: d.sub(b, paths[0])) if paths else (None, None)
+        again = guarded(lambda: a.match(warm))
+        out.update({"prefix": pr[1], "matches": [m[1] for m in ms], "sub": sb[1], "a.match.again": again[1]})
+        if paths and isinstance(sb[1], str):
+            out["back"] = guarded(lambda: b.sub(d, sb[1]))[1]
+        # the same questions to a matcher built afresh
+        f = build_raw(case["fresh"])
+        out["fresh"] = {"prefix": guarded(lambda: f.prefix)[1], "matches": [guarded(lambda p=p: f.match(p))[1] for p in paths],
+                        "sub": guarded(lambda: f.sub(b, paths[0]))[1] if paths else None}
+        canon = (head + " ; " + " , ".join(acc) + " ; " + can_text(pr) + " ; " + " | ".join(can_match(m) for m in ms) + " ; " +
+                 (can_text(sb) if paths else "-") + " ; " + can_match(again))
+        return canon, out
+    canon, out = _at(case.get("cwd"), go)
+    out["canon"] = canon
+    return out
+
+
+def impl_pairing(case):
+    """a one-rule project on a real directory tree: ProjectFiles pairs the files of the reference and the l10n side
+    (iter_locale, match, iter_reference); paths are returned relative to the scratch root"""
+    import shutil
+    import tempfile
+    from compare_locales.paths import ProjectConfig, ProjectFiles
+    base = "/tmp/wt/c12"
+    _os.makedirs(base, exist_ok=True)
+    top = tempfile.mkdtemp(prefix="pair-", dir=base)
+    try:
+        for rel in case["files"]:
+            p = _os.path.join(top, rel)
+            _os.makedirs(_os.path.dirname(p), exist_ok=True)
+            with open(p, "w") as fh:
+                fh.write("x")
+        pc = ProjectConfig(_os.path.join(top, "l10n.toml"))
+        pc.set_root(".")
+        pc.add_environment(**dict(case["env"]))
+        pc.add_paths({"l10n": case["l10n"], "reference": case["ref"]})
+        pc.set_locales([case["locale"]], deep=True)
+        files = ProjectFiles(case["locale"], [pc])
+
+        def rel(p):
+            if p is None:
+                return None
+            return p[len(top) + 1:] if p.startswith(top + "/") else "!" + p
+        listed = [[rel(a), rel(b)] for a, b, _, _ in files]
+        lookups = []
+        for f in case["files"]:
+            r = files.match(_os.path.join(top, f))
+            lookups.append(None if r is None else [rel(r[0]), rel(r[1])])
+        refs = [[rel(a), rel(b)] for a, b, _, _ in ProjectFiles(None, [pc])]
+        return {"listed": listed, "lookups": lookups, "reference_mode": refs}
+    finally:
+        shutil.rmtree(top, ignore_errors=True)
